@@ -41,6 +41,8 @@ def split_top(s, sep=","):
 
 
 class Translit:
+    keep_asserts = False     # True: assert(c) becomes ASSERT(c, "text") (a precondition obligation) instead of being dropped
+
     def __init__(self, name):
         self.name = name
         self.log = {}
@@ -325,6 +327,10 @@ class Translit:
         if m:
             self.hit("increment->+=1", st)
             return ["%s += 1" % self.expr(m.group(1) or m.group(2))]
+        if self.keep_asserts and re.match(r"assert\s*\(", st):
+            inner = st[st.index("(") + 1:st.rindex(")")]
+            self.hit("assert->precondition obligation", st)
+            return ["ASSERT(%s, %r)" % (self.expr(inner), inner)]
         if re.match(r"(SimTK_ASSERT|SimTK_ERRCHK|SimTK_APIARGCHECK|SimTK_INDEXCHECK|SimTK_SIZECHECK|SimTK_STAGECHECK|assert)\w*\s*\(", st):
             self.dropped.append(dict(rule="assert/argument-check dropped (its condition is a precondition of the contract)", text=st)); return []
         m = DECL_RX.match(st)
@@ -377,6 +383,7 @@ class Translit:
 
 
 def params_of(header):
+    header = re.sub(r"operator\s*\(\s*\)", "operator_call", header)      # operator()(...) : the first () is part of the name
     op = header.index("(")
     cp = match_brace(blank_comments(header), op)
     inner = header[op + 1:cp].strip()
@@ -398,9 +405,10 @@ def params_of(header):
     return names
 
 
-def to_python(cut, pyname, self_param=False, pre=None):
+def to_python(cut, pyname, self_param=False, pre=None, keep_asserts=False):
     """cut: extract.Cut of a function definition. Returns (python source, log, dropped)."""
     t = Translit(cut.name)
+    t.keep_asserts = keep_asserts
     header = strip_comments(cut.header)
     # constructor initialiser lists are not supported
     names = params_of(header)
